@@ -247,8 +247,12 @@ fn jtext() -> impl Strategy<Value = String> {
 }
 
 fn jpieces() -> impl Strategy<Value = Vec<String>> {
-    (jtext(), prop::collection::vec(any::<u16>(), 0..=3)).prop_map(|(s, cuts)| {
+    (jtext(), prop::collection::vec(any::<u16>(), 0..=3), prop::bool::weighted(0.2)).prop_map(|(s, cuts, per_char)| {
         let chars: Vec<char> = s.chars().collect();
+        if per_char && chars.len() <= 40 && !chars.is_empty() {
+            // every character on its own (char arguments)
+            return chars.iter().map(|c| c.to_string()).collect();
+        }
         let mut pos: Vec<usize> = cuts.iter().map(|c| (*c as usize * (chars.len() + 1)) >> 16).collect();
         pos.sort();
         let mut out = vec![];
@@ -278,6 +282,10 @@ pub struct Case {
     /// default deserializers (what a configuration file does)
     #[serde(default)]
     pub ctor: u8,
+    /// before the checked record, the same thread encodes a record whose MDC holds the same bytes with every
+    /// key/value boundary moved by one character
+    #[serde(default)]
+    pub prior_shifted_mdc: bool,
 }
 
 /// The encoder by one of its public routes.
@@ -305,15 +313,16 @@ pub fn strategy() -> impl Strategy<Value = Case> {
         prop::option::weighted(0.3, jtext().prop_filter("thread names cannot hold NUL", |s| !s.contains('\0'))),
         crate::pat::write_script(),
         prop::bool::weighted(0.1),
-        (prop::option::weighted(0.25, prop_oneof![Just(0usize), 1usize..40, 100usize..2000]), 0u8..3),
+        (prop::option::weighted(0.25, prop_oneof![Just(0usize), 1usize..40, 100usize..2000]), 0u8..3, prop::bool::weighted(0.3)),
     )
-        .prop_map(|((level, msg, target, module, file, line, mdc), thread, script, unnamed_thread, (prior_failure, ctor))| Case {
+        .prop_map(|((level, msg, target, module, file, line, mdc), thread, script, unnamed_thread, (prior_failure, ctor, prior_shifted_mdc))| Case {
             rec: Rec { level, msg, target, module, file, line, mdc },
             thread,
             script,
             unnamed_thread,
             prior_failure,
             ctor,
+            prior_shifted_mdc,
         })
 }
 
@@ -354,6 +363,23 @@ fn check_on_thread(case: &Case, obs: &mut Obs, thread_name: Option<&str>) -> Cas
             Err(p) => return fail("C12:panic", format!("encode into a failing sink panicked: {}", p)),
             Ok(_) => obs.class("after-a-failed-encode-on-this-thread"),
         }
+    }
+    if case.prior_shifted_mdc && !rec.mdc.is_empty() {
+        let shifted: Vec<(String, String)> = rec
+            .mdc
+            .iter()
+            .map(|(k, v)| match (k.chars().last(), v.chars().next()) {
+                // "request" = "id-17"  ->  "reques" = "tid-17";  "" = "x"  ->  "x" = ""
+                (Some(c), _) => (k[..k.len() - c.len_utf8()].to_string(), format!("{}{}", c, v)),
+                (None, Some(c)) => (c.to_string(), v[c.len_utf8()..].to_string()),
+                (None, None) => (k.clone(), v.clone()),
+            })
+            .collect();
+        let other = Rec { level: 3, msg: vec!["the record before".into()], target: "earlier".into(), module: None, file: None, line: None, mdc: shifted };
+        if let Err(p) = catch(|| encode_with(enc, &other, vec![])) {
+            return fail("C12:panic", format!("encoding the preceding record panicked: {}", p));
+        }
+        obs.class("after-a-record-with-the-mdc-boundaries-shifted");
     }
     let t0 = chrono::Utc::now();
     let (w, res) = match catch(|| encode_with(enc, rec, case.script.clone())) {
@@ -517,7 +543,7 @@ pub fn replay(part: &str, case: serde_json::Value) -> Option<CaseResult> {
 pub fn meta() -> EvidenceMeta {
     EvidenceMeta {
         level: "exploration",
-        rule: "cases = generated records (5 levels; message in 1-4 pieces; strings biased towards quote, backslash, slash, U+0000-001F, U+007F, U+0085, U+2028/9, non-BMP, combining marks, arbitrary chars, and >=1 KiB repetitions; optional fields present/absent; MDC maps of 0-5 entries with such keys/values; main or named thread; scripted short writes); oracle = output is exactly one line (final newline, no byte < 0x20 before it), parses with the harness's own strict RFC 8259 parser (rejects raw controls, duplicate keys, trailing garbage) and with serde_json, every documented field equals the record's value exactly, absent optional fields are omitted, time is RFC 3339 inside the encode bracket, no undocumented key; Text fields may hold one uninterrupted plain run of 8-20 kB; the encoder is built by JsonEncoder::new(), Default::default() or the kind: json deserializer; the sink may answer write calls with ErrorKind::Interrupted. non-trivial = some string needs escaping or an optional field is absent; distinct = FNV hash of the case".into(),
+        rule: "cases = generated records (5 levels; message in 1-4 pieces; strings biased towards quote, backslash, slash, U+0000-001F, U+007F, U+0085, U+2028/9, non-BMP, combining marks, arbitrary chars, and >=1 KiB repetitions; optional fields present/absent; MDC maps of 0-5 entries with such keys/values; main or named thread; scripted short writes); oracle = output is exactly one line (final newline, no byte < 0x20 before it), parses with the harness's own strict RFC 8259 parser (rejects raw controls, duplicate keys, trailing garbage) and with serde_json, every documented field equals the record's value exactly, absent optional fields are omitted, time is RFC 3339 inside the encode bracket, no undocumented key; In 20% of the messages every character is delivered on its own (the way char arguments arrive); in 30% of the cases the same thread first encodes a record whose MDC holds the same bytes with every key/value boundary moved by one character. Text fields may hold one uninterrupted plain run of 8-20 kB; the encoder is built by JsonEncoder::new(), Default::default() or the kind: json deserializer; the sink may answer write calls with ErrorKind::Interrupted. non-trivial = some string needs escaping or an optional field is absent; distinct = FNV hash of the case".into(),
         assumptions: vec!["'control character' = U+0000-U+001F (JSON's own definition); U+007F/U+0085/U+2028/9 are legal raw and only counted".into()],
         mutants_caught: vec![],
     }
